@@ -18,6 +18,13 @@ for pid in ALL:
         if not m:
             return default
         return "".join(json.loads(x) for x in re.findall(r'"(?:[^"\\]|\\.)*"', m.group(1)))
+    # source-translated tie (DESIGN 3A.6): which functions Props/<pid>_Src*.lean proves equal to the model
+    pdir = os.path.join(VERIF, "lean", "BitstringModel", "Props")
+    srcs = "".join(open(os.path.join(pdir, f)).read() for f in sorted(os.listdir(pdir)) if f.startswith(pid + "_Src") and f.endswith(".lean"))
+    tied = sorted(set(re.findall(r"Gen\.Src\.([A-Za-z_0-9]+)", srcs)) - {"Untranslatable"})
+    tie_text = (" Source-translated tie: harness/translate.py re-translates " + ", ".join(tied) + " from /repo on every run "
+                "(Gen/Src.lean) and Props/" + pid + "_Src*.lean proves each equal to the ALG model for all inputs.") if tied else ""
+    tie_tech = " + source-to-Lean translation of the guard/index functions with equivalence theorems" if tied else ""
     checks.append({
         "property_id": pid,
         "quick_cmd": f"./check {pid} --tier quick",
@@ -26,8 +33,8 @@ for pid in ALL:
         "replay_cmd_template": f"./check {pid} --replay {{path}}",
         "engine": "lean-model+correspondence",
         "level_claimed": {"category": "proof", "text": meta("LEVEL_TEXT", "Lean 4 theorems about a hand-written model of the code's algorithms, tied to the working tree by a differential correspondence run"), "design_ref": f"DESIGN.md §6 {pid}"},
-        "level_note": meta("LEVEL_NOTE", "Trusted: Lean kernel + propext/Classical.choice/Quot.sound; the correspondence harness; bitarray/CPython primitives modelled, not verified."),
-        "technique": meta("TECHNIQUE", "Lean 4 proof over an executable model + model/implementation correspondence"),
+        "level_note": meta("LEVEL_NOTE", "Trusted: Lean kernel + propext/Classical.choice/Quot.sound; the correspondence harness; bitarray/CPython primitives modelled, not verified.") + tie_text,
+        "technique": meta("TECHNIQUE", "Lean 4 proof over an executable model + model/implementation correspondence") + tie_tech,
     })
 man = {
     "version": 1,
@@ -37,7 +44,7 @@ man = {
               "source_commits": json.load(open(os.path.join(VERIF, "harness", "hook_commits.json"))) if os.path.exists(os.path.join(VERIF, "harness", "hook_commits.json")) else [],
               "add_only": True},
     "engines": [{"name": "lean-model+correspondence", "path": "lean/ + harness/", "serves_properties": [c["property_id"] for c in checks],
-                 "kind_free_text": "Lean 4 (4.33.0) model + theorems (lake build, #print axioms audit), generated layer re-extracted from /repo each run, differential correspondence of the model's executable definitions against the implementation over a line protocol"}],
+                 "kind_free_text": "Lean 4 (4.33.0) model + theorems (lake build, #print axioms audit), generated layer re-extracted from /repo each run, source-to-Lean translation of the guard / index-arithmetic functions (harness/translate.py) with equivalence theorems against the hand-written model, differential correspondence of the model's executable definitions against the implementation over a line protocol"}],
     "checks": checks,
     "not_applicable": na,
     "notes": "See DESIGN.md. Exit 0 = held on everything explored; exit 1 + VIOLATION line; exit 2 = infrastructure trouble (never a VIOLATION).",
